@@ -72,6 +72,21 @@ def path_literals(pth):
     return out
 
 
+def path_literals_add(pth):
+    """path_literals for values of the additive (elliptic-curve) domain: there the empty linear form is the identity, so
+    a comparison `v == identity` is the identity test of v"""
+    out = []
+    for key, t, lab in path_literals(pth):
+        if isinstance(key, tuple) and len(key) == 3 and key[0] == 'eq':
+            a, b = key[1], key[2]
+            if a == ('lin', ()) and isinstance(b, tuple) and b and b[0] == 'lin' and b[1]:
+                key = ('is_zero', b)
+            elif b == ('lin', ()) and isinstance(a, tuple) and a and a[0] == 'lin' and a[1]:
+                key = ('is_zero', a)
+        out.append((key, t, lab))
+    return out
+
+
 def value_under(ret, env):
     """Truth value of a path's return value under env (dict key -> bool); None if undecided."""
     if isinstance(ret, Int):
